@@ -320,6 +320,8 @@ func fnIncrByFloat(ctx *cmdContext, args map[string]any) (output respValue, err 
 		output.data = wrongTypeError
 	} else if valid == VALUE_WRONG_FORMAT {
 		output.data = respErrorString("ERR value is not a valid float")
+	} else if valid == VALUE_OVERFLOW {
+		output.data = respErrorString("ERR increment would produce NaN or Infinity")
 	} else {
 		output.data = respBulkString(strconv.FormatFloat(result, 'f', -1, 64))
 	}
